@@ -357,6 +357,9 @@ func runWriter(o wopts, input []byte, calls []wcall, sink *recSink, blocks *[]in
 			if c.N >= 4 && c.N <= 7 {
 				// re-configure: a different block size (only meaningful before the first write of a life)
 				r.Err = classify(zw.Apply(lz4.BlockSizeOption(blockSizeOf(c.N))))
+			} else if c.N == 100 || c.N == 101 {
+				// re-configure: legacy format off / on
+				r.Err = classify(zw.Apply(lz4.LegacyOption(c.N == 101)))
 			} else {
 				r.Err = classify(zw.Apply(lz4.BlockChecksumOption(o.BCS)))
 			}
